@@ -10,6 +10,18 @@ var checks = map[string][]HarnessSpec{
 		{Name: "verifC08WriteArmed", Pkg: ".", Labels: []string{"writes-done"}},
 		{Name: "verifC08AroundECH", Pkg: ".", Labels: []string{"newconn-ok", "newconn-error"}},
 	},
+	"C11": {
+		{Name: "verifC11Encode", Pkg: ".", Labels: []string{"roundtrip"}},
+		{Name: "verifC11Refuse", Pkg: ".", Labels: []string{"refused"}},
+		{Name: "verifC11List", Pkg: ".", Labels: []string{"list"}},
+		{Name: "verifC11NewConfig", Pkg: ".", Labels: []string{"newconfig"}},
+		{Name: "verifC11ParseRaw", Pkg: ".", Labels: []string{"raw", "raw-valid"}},
+	},
+	"C12": {
+		{Name: "verifC12Raw", Pkg: "./dns", Labels: []string{"decoded", "rejected"}, Quick: TierOpts{LoopLimit: 300}, Thorough: TierOpts{LoopLimit: 300}},
+		{Name: "verifC12Names", Pkg: "./dns", Labels: []string{"decoded", "rejected"}, Quick: TierOpts{LoopLimit: 300}, Thorough: TierOpts{LoopLimit: 300}},
+		{Name: "verifC12RData", Pkg: "./dns", Labels: []string{"decoded", "rejected"}, Quick: TierOpts{LoopLimit: 300}, Thorough: TierOpts{LoopLimit: 300}},
+	},
 	"SMOKE": {
 		{Name: "verifSmoke", Pkg: "."},
 	},
